@@ -12,7 +12,7 @@ Fixpoint ok_count (l : list item) : Z := match l with it :: t => ok_weight it + 
 
 Inductive wf : list item -> counters -> Prop :=
 | wf_term : forall it c, continues it = false -> cnt_ok c -> handled c = 0 -> c_err c <= 1 -> c_end c = 0 ->
-    c_setup c = c_err c -> wf [it] c
+    c_setup c = c_err c + c_abort c -> wf [it] c
 | wf_ok_last : forall a setup, wf [IOk a] (handler_counters a setup)
 | wf_ok_cons : forall a setup l c, wf l c -> wf (IOk a :: l) (cadd (handler_counters a setup) c)
 | wf_free_cons : forall it l c, continues it = true -> ok_weight it = 0 -> wf l c -> wf (it :: l) c.
@@ -50,14 +50,14 @@ Qed.
 Lemma cadd_handled a b : handled (cadd a b) = handled a + handled b.
 Proof. unfold handled, cadd. cbn. lia. Qed.
 Lemma wf_counters l c : wf l c ->
-  cnt_ok c /\ handled c = ok_count l /\ 0 <= c_err c <= 1 /\ c_end c <= c_setup c /\ c_setup c <= c_main c + c_err c.
+  cnt_ok c /\ handled c = ok_count l /\ 0 <= c_err c <= 1 /\ c_end c <= c_setup c /\ c_setup c <= c_main c + c_err c + c_abort c.
 Proof.
   induction 1 as [it0 c1 H0 K H1 H2 H3 H4|a setup|a setup l c W IH|it0 l c H0 H1 W IH].
   - unfold cnt_ok in *. destruct it0; try discriminate; cbn [ok_count ok_weight]; unfold handled in *; intuition lia.
   - pose proof (handler_counters_spec a setup _ eq_refl) as S. cbn [ok_count ok_weight].
     destruct a, setup; vm_compute; intuition (try discriminate; try reflexivity).
   - pose proof (handler_counters_spec a setup _ eq_refl) as S. cbn [ok_count].
-    rewrite cadd_handled. unfold cnt_ok, cadd in *. cbn [c_sync c_async c_setup c_main c_err c_end].
+    rewrite cadd_handled. unfold cnt_ok, cadd in *. cbn [c_sync c_async c_setup c_main c_err c_end c_abort].
     assert (Hw : handled (handler_counters a setup) = ok_weight (IOk a)) by (destruct a, setup; reflexivity).
     assert (Hm : c_setup (handler_counters a setup) <= c_main (handler_counters a setup)) by (destruct a, setup; vm_compute; discriminate).
     intuition lia.
@@ -298,7 +298,7 @@ Definition run_ok (r : list item * counters) : Prop :=
   let l := fst r in let c := snd r in
   l <> [] /\
   (forall pre it post, l = pre ++ it :: post -> post <> [] -> continues it = true) /\
-  cnt_ok c /\ handled c = ok_count l /\ 0 <= c_err c <= 1 /\ c_end c <= c_setup c /\ c_setup c <= c_main c + c_err c /\
+  cnt_ok c /\ handled c = ok_count l /\ 0 <= c_err c <= 1 /\ c_end c <= c_setup c /\ c_setup c <= c_main c + c_err c + c_abort c /\
   (c_err c = 1 -> exists pre last, l = pre ++ [last] /\ continues last = false).
 Lemma wf_run_ok r : wf (fst r) (snd r) -> run_ok r.
 Proof.
